@@ -305,19 +305,32 @@ template <typename SELF, typename BASE> bool thisok(const BASE* self);
 // SELF is the most-derived state type the callbacks belong to (St<I> or Rt), used for the access<>() identity check.
 #define VX_THISOK(SELF, BASE) (thisok<SELF, BASE>(this))
 
-#define VX_CALLBACKS(SELF, BASE, SID, INJ) \
-	void entryGuard(GuardControl& c) { visit_guard(c, SID, INJ, M_EG, VX_THISOK(SELF, BASE)); } \
-	void enter(PlanControl& c) { visit_life(c, SID, INJ, M_ENTER, VX_THISOK(SELF, BASE)); } \
-	void reenter(PlanControl& c) { visit_life(c, SID, INJ, M_REENTER, VX_THISOK(SELF, BASE)); } \
-	void preUpdate(FullControl& c) { visit_full(c, SID, INJ, M_PRE_UPDATE, VX_THISOK(SELF, BASE), nullptr); } \
-	void update(FullControl& c) { visit_full(c, SID, INJ, M_UPDATE, VX_THISOK(SELF, BASE), nullptr); } \
-	void postUpdate(FullControl& c) { visit_full(c, SID, INJ, M_POST_UPDATE, VX_THISOK(SELF, BASE), nullptr); } \
-	void preReact(const EvA& ev, FullControl& c) { visit_full(c, SID, INJ, M_PRE_REACT, VX_THISOK(SELF, BASE), &ev); } \
-	void react(const EvA& ev, FullControl& c) { visit_full(c, SID, INJ, M_REACT, VX_THISOK(SELF, BASE), &ev); } \
-	void postReact(const EvA& ev, FullControl& c) { visit_full(c, SID, INJ, M_POST_REACT, VX_THISOK(SELF, BASE), &ev); } \
-	void query(QA& ev, ConstControl& c) const { visit_const(c, SID, INJ, M_QUERY, VX_THISOK(SELF, BASE), &ev); } \
-	void exitGuard(GuardControl& c) { visit_guard(c, SID, INJ, M_XG, VX_THISOK(SELF, BASE)); } \
-	void exit(PlanControl& c) { visit_life(c, SID, INJ, M_EXIT, VX_THISOK(SELF, BASE)); }
+#define VX_CALLBACKS_Q(SELF, BASE, SID, INJ, V, NX) \
+	V void entryGuard(GuardControl& c) NX { visit_guard(c, SID, INJ, M_EG, VX_THISOK(SELF, BASE)); } \
+	V void enter(PlanControl& c) NX { visit_life(c, SID, INJ, M_ENTER, VX_THISOK(SELF, BASE)); } \
+	V void reenter(PlanControl& c) NX { visit_life(c, SID, INJ, M_REENTER, VX_THISOK(SELF, BASE)); } \
+	V void preUpdate(FullControl& c) NX { visit_full(c, SID, INJ, M_PRE_UPDATE, VX_THISOK(SELF, BASE), nullptr); } \
+	V void update(FullControl& c) NX { visit_full(c, SID, INJ, M_UPDATE, VX_THISOK(SELF, BASE), nullptr); } \
+	V void postUpdate(FullControl& c) NX { visit_full(c, SID, INJ, M_POST_UPDATE, VX_THISOK(SELF, BASE), nullptr); } \
+	V void preReact(const EvA& ev, FullControl& c) NX { visit_full(c, SID, INJ, M_PRE_REACT, VX_THISOK(SELF, BASE), &ev); } \
+	V void react(const EvA& ev, FullControl& c) NX { visit_full(c, SID, INJ, M_REACT, VX_THISOK(SELF, BASE), &ev); } \
+	V void postReact(const EvA& ev, FullControl& c) NX { visit_full(c, SID, INJ, M_POST_REACT, VX_THISOK(SELF, BASE), &ev); } \
+	V void query(QA& ev, ConstControl& c) const NX { visit_const(c, SID, INJ, M_QUERY, VX_THISOK(SELF, BASE), &ev); } \
+	V void exitGuard(GuardControl& c) NX { visit_guard(c, SID, INJ, M_XG, VX_THISOK(SELF, BASE)); } \
+	V void exit(PlanControl& c) NX { visit_life(c, SID, INJ, M_EXIT, VX_THISOK(SELF, BASE)); }
+
+// VX_INJ_VIRTUAL: the injections declare their callbacks virtual (a polymorphic mix-in); the states' callbacks of the same name then
+// override them and, like the library's own stubs, must be noexcept
+#ifndef VX_INJ_VIRTUAL
+#define VX_INJ_VIRTUAL 0
+#endif
+#if VX_INJ_VIRTUAL
+#define VX_CALLBACKS(SELF, BASE, SID, INJ) VX_CALLBACKS_Q(SELF, BASE, SID, INJ, , noexcept)
+#define VX_CALLBACKS_INJ(SELF, BASE, SID, INJ) VX_CALLBACKS_Q(SELF, BASE, SID, INJ, virtual, noexcept)
+#else
+#define VX_CALLBACKS(SELF, BASE, SID, INJ) VX_CALLBACKS_Q(SELF, BASE, SID, INJ, , )
+#define VX_CALLBACKS_INJ(SELF, BASE, SID, INJ) VX_CALLBACKS_Q(SELF, BASE, SID, INJ, , )
+#endif
 
 #if VX_PLANS
 #if VX_HEAD_PLANCB == 3
@@ -344,8 +357,8 @@ template <typename SELF, typename BASE> bool thisok(const BASE* self);
 #else
 #define VX_USING_BASE_HANDLERS
 #endif
-template <int I, int J> struct Inj : FSM::State { VX_CALLBACKS(St<I>, Inj, I, J) };
-template <int J> struct RInj : FSM::State { VX_CALLBACKS(Rt, RInj, ROOT, J) };
+template <int I, int J> struct Inj : FSM::State { VX_CALLBACKS_INJ(St<I>, Inj, I, J) };
+template <int J> struct RInj : FSM::State { VX_CALLBACKS_INJ(Rt, RInj, ROOT, J) };
 
 template <int I, int K> struct StBase;
 template <int I> struct StBase<I, 0> { using Type = FSM::State; };
@@ -369,15 +382,20 @@ template <int I> struct St : StBase<I, INJ_OF[I]>::Type {
 	VX_CALLBACKS(St<I>, St<I>, I, 0)
 	uint8_t vx_entered = 0;   // user data kept in the state object: set by enter(), reset by exit() (observed at every callback; a copy must carry it)
 };
+#if VX_INJ_VIRTUAL
+#define VX_SPARSE_NX noexcept
+#else
+#define VX_SPARSE_NX
+#endif
 #if VX_SPARSE >= 0
 template <> struct St<VX_SPARSE> : StBase<VX_SPARSE, INJ_OF[VX_SPARSE]>::Type {
 	using Base = typename StBase<VX_SPARSE, INJ_OF[VX_SPARSE]>::Type;
 	using GuardControl = typename Base::GuardControl; using PlanControl = typename Base::PlanControl;
 	using FullControl = typename Base::FullControl; using ConstControl = typename Base::ConstControl;
 #if VX_SPARSE_SHAPE == 2
-	void enter(PlanControl& c) { visit_life(c, VX_SPARSE, 0, M_ENTER, VX_THISOK(St<VX_SPARSE>, St<VX_SPARSE>)); }
-	void update(FullControl& c) { visit_full(c, VX_SPARSE, 0, M_UPDATE, VX_THISOK(St<VX_SPARSE>, St<VX_SPARSE>), nullptr); }
-	void exit(PlanControl& c) { visit_life(c, VX_SPARSE, 0, M_EXIT, VX_THISOK(St<VX_SPARSE>, St<VX_SPARSE>)); }
+	void enter(PlanControl& c) VX_SPARSE_NX { visit_life(c, VX_SPARSE, 0, M_ENTER, VX_THISOK(St<VX_SPARSE>, St<VX_SPARSE>)); }
+	void update(FullControl& c) VX_SPARSE_NX { visit_full(c, VX_SPARSE, 0, M_UPDATE, VX_THISOK(St<VX_SPARSE>, St<VX_SPARSE>), nullptr); }
+	void exit(PlanControl& c) VX_SPARSE_NX { visit_life(c, VX_SPARSE, 0, M_EXIT, VX_THISOK(St<VX_SPARSE>, St<VX_SPARSE>)); }
 #endif
 	uint8_t vx_entered = 0;
 };
